@@ -336,6 +336,20 @@ def gen_flags():
     if not m:
         raise Unsupported("max_depth fallback")
     out.append("Definition g_depth_plus : N := %s." % ("1" if m.group(1) else "0"))
+    # nogood_internal: what follows the loop that pops the stack down to the last choice entry?
+    m = re.search(r"while let Some\(\(choice, ng\)\) = stack\.pop\(\) \{(.*?)\n                \}(.*?)\n            \}\n\s*match ng_store\.conclusion_closure", adf, flags=re.S)
+    if not m:
+        raise Unsupported("backtrack block of nogood_internal")
+    inner, after = m.group(1), re.sub(r"//[^\n]*", "", m.group(2)).split()
+    found = re.search(r"if choice \{.*?(\w+) = true;\s*break;\s*\}", inner, flags=re.S)
+    if not after:
+        ex = "false"
+    elif found and after == ["if", "!" + found.group(1), "{", "break;", "}"]:
+        ex = "true"
+    else:
+        raise Unsupported("statements after the unwinding loop of nogood_internal: %r" % " ".join(after))
+    out.append("(* nogood_internal: the loop ends when a backtrack finds no choice entry *)")
+    out.append("Definition g_ng_stop_exhausted : bool := %s." % ex)
     return "\n".join(out) + "\n"
 
 
